@@ -422,6 +422,19 @@ func unlocatedKey(msg string) string {
 	return clip(quotedRe.ReplaceAllString(msg, `"…"`), 160)
 }
 
+// yamlOnlyNumber returns the two spellings of the number that the tree writes differently in YAML and JSON.
+func yamlOnlyNumber(n *node) (ys, js string) {
+	if n.K == kNum && n.YS != "" {
+		return n.YS, n.S
+	}
+	for _, k := range n.Kids {
+		if ys, js = yamlOnlyNumber(k); ys != "" {
+			return ys, js
+		}
+	}
+	return "", ""
+}
+
 // metamorphic compares the verdicts of the two spellings of the same data.
 func metamorphic(a applied, vj, vy verdict, ixJ, ixY *docIndex) *vk.Finding {
 	if vj.Class != vy.Class || vj.Stage != vy.Stage {
@@ -432,6 +445,17 @@ func metamorphic(a applied, vj, vy verdict, ixJ, ixY *docIndex) *vk.Finding {
 		return nil
 	}
 	mj, my := stripPositions(vj.Err, jsonName), stripPositions(vy.Err, yamlName)
+	if ys, js := yamlOnlyNumber(a.Tree); ys != "" {
+		// the two texts spell ONE number differently on purpose (.5 / 0.5): a message that quotes the scalar
+		// quotes another text and, for +5 / 5., another YAML tag; nothing else may differ
+		quote := func(m, lit string) string {
+			m = strings.ReplaceAll(m, "`"+lit+"`", "`<number>`")
+			m = strings.ReplaceAll(m, `"`+lit+`"`, `"<number>"`)
+			m = strings.ReplaceAll(m, "!!float `<number>`", "!!num `<number>`")
+			return strings.ReplaceAll(m, "!!int `<number>`", "!!num `<number>`")
+		}
+		mj, my = quote(mj, js), quote(my, ys)
+	}
 	if mj != my {
 		return vk.F("spellings-differ-message", "same data, messages differ beyond positions:\n JSON: %s\n YAML: %s", clip(vj.Err, 500), clip(vy.Err, 500))
 	}
